@@ -21,7 +21,7 @@ TARGETS = [
     ('polymath/qube.py', 'Qube', ['__iadd__', '__isub__', '__imul__', '__itruediv__', '__ifloordiv__', '__imod__',
                                   '__iand__', '__ior__', '__ixor__', 'insert_deriv', '_require_compatible_deriv',
                                   'insert_derivs', 'delete_deriv', 'delete_derivs', 'set_units', 'require_writable',
-                                  '_require_broadcast_into']),
+                                  '_require_broadcast_into', '_require_units_allowed', '_merge_mask_']),
     ('polymath/extensions/indexer.py', None, ['__setitem__', '_require_assignable', '_prep_index']),
     ('polymath/boolean.py', 'Boolean', ['__iadd__', '__isub__', '__imul__', '__itruediv__', '__ifloordiv__', '__imod__']),
     ('polymath/matrix.py', 'Matrix', ['__ifloordiv__', '__imod__']),
@@ -33,7 +33,8 @@ BUILTINS = {'isinstance', 'len', 'tuple', 'list', 'set', 'dict', 'range', 'type'
             'IndexError', 'ValueError', 'TypeError', 'setattr', 'delattr', 'reversed', 'sum', 'id', 'iter', 'next'}
 import numpy as _np
 AMBIGUOUS = set(dir(_np.ndarray)) | set(dir(dict)) | set(dir(list)) | set(dir(set))
-OPTIONAL = {'_require_compatible_deriv', '_require_broadcast_into', '_require_assignable'}   # introduced by fix: commits
+OPTIONAL = {'_require_compatible_deriv', '_require_broadcast_into', '_require_assignable', '_require_units_allowed',
+            '_merge_mask_'}   # introduced by fix: commits
 
 
 def find_funcs(tree, cls):
